@@ -3,11 +3,22 @@ package main
 // C13: narrow syntactic classes of the divergences known on the unchanged tree
 // (see known-findings.d/C13.txt and notes/C13.md).  First match wins.
 
-// schema-side predicates
+import "strings"
 
-func typeListHasIntegerAndNumber(s jv) bool {
+// ---- schema-side predicates ----------------------------------------------------------------
+
+func anySchemaObj(s jv, pred func(o jobj) bool) bool {
 	found := false
 	walkSchemas(s, func(o jobj) {
+		if !found && pred(o) {
+			found = true
+		}
+	})
+	return found
+}
+
+func typeListHasIntegerAndNumber(s jv) bool {
+	return anySchemaObj(s, func(o jobj) bool {
 		if v, ok := o.get("type"); ok {
 			if a, ok := v.([]jv); ok {
 				hi, hn := false, false
@@ -15,59 +26,56 @@ func typeListHasIntegerAndNumber(s jv) bool {
 					hi = hi || e == "integer"
 					hn = hn || e == "number"
 				}
-				found = found || (hi && hn)
+				return hi && hn
 			}
 		}
+		return false
 	})
-	return found
 }
 
-// a const / enum value that contains a number
+// a const / enum value that contains a number satisfying pred
 func constEnumHasNumber(s jv, pred func(jnum) bool) bool {
-	found := false
-	walkSchemas(s, func(o jobj) {
+	return anySchemaObj(s, func(o jobj) bool {
 		if v, ok := o.get("const"); ok && anyNum(v, pred) {
-			found = true
+			return true
 		}
 		if v, ok := o.get("enum"); ok && anyNum(v, pred) {
-			found = true
+			return true
 		}
+		return false
 	})
-	return found
 }
 
 func isIntegralFloatLit(n jnum) bool { return !isIntLiteral(n) && numRat(n).IsInt() }
 func isIntegralNum(n jnum) bool     { return numRat(n).IsInt() }
 
 func hasUniqueItemsTrue(s jv) bool {
-	found := false
-	walkSchemas(s, func(o jobj) {
-		if v, ok := o.get("uniqueItems"); ok && v == true {
-			found = true
-		}
+	return anySchemaObj(s, func(o jobj) bool {
+		v, ok := o.get("uniqueItems")
+		return ok && v == true
 	})
-	return found
 }
 
 // propertyNames with a value other than true / {}
 func hasEffectivePropertyNames(s jv) bool {
-	found := false
-	walkSchemas(s, func(o jobj) {
-		if v, ok := o.get("propertyNames"); ok {
-			if b, ok := v.(bool); ok && b {
-				return
-			}
-			if m, ok := v.(jobj); ok && len(m) == 0 {
-				return
-			}
-			found = true
+	return anySchemaObj(s, func(o jobj) bool {
+		v, ok := o.get("propertyNames")
+		if !ok {
+			return false
 		}
+		if b, ok := v.(bool); ok && b {
+			return false
+		}
+		if m, ok := v.(jobj); ok && len(m) == 0 {
+			return false
+		}
+		return true
 	})
-	return found
 }
 
 // memberUnconstrained approximates `!sub.hasConstraints` of constraintAllOf: a boolean
-// schema, or an object with nothing but `type` (without "integer") / annotations
+// schema, or an object with nothing but `type` (without "integer") and keywords that add
+// no constraint
 func memberUnconstrained(m jv) bool {
 	switch x := m.(type) {
 	case bool:
@@ -79,8 +87,10 @@ func memberUnconstrained(m jv) bool {
 				if typeMentions(jobj{e}, "integer") {
 					return false
 				}
-			case "$comment", "default", "examples", "uniqueItems", "then", "else":
-				if e.k == "uniqueItems" && e.v == true {
+			case "$comment", "default", "examples", "then", "else", "$defs", "allOf", "anyOf", "oneOf":
+				// a combinator over members without constraints adds none either
+			case "uniqueItems":
+				if e.v == true {
 					return false
 				}
 			default:
@@ -92,54 +102,210 @@ func memberUnconstrained(m jv) bool {
 	return false
 }
 
-// allOf with at least three members, one of them without constraints and two with
+// allOf with at least three members, one of them (possibly) without constraints
 func hasAllOfCountBug(s jv) bool {
-	found := false
-	walkSchemas(s, func(o jobj) {
+	return anySchemaObj(s, func(o jobj) bool {
 		if v, ok := o.get("allOf"); ok {
 			if a, ok := v.([]jv); ok && len(a) >= 3 {
-				un, co := 0, 0
+				// (memberUnconstrained is an approximation in both directions for nested
+				// combinators, so the number of constrained members is not checked)
 				for _, m := range a {
 					if memberUnconstrained(m) {
-						un++
-					} else {
-						co++
+						return true
 					}
 				}
-				if un >= 1 && co >= 2 {
-					found = true
-				}
+				return false
 			}
 		}
+		return false
 	})
-	return found
+}
+
+func listHasFalse(o jobj, kw string) (has bool, n int) {
+	if v, ok := o.get(kw); ok {
+		if a, ok := v.([]jv); ok {
+			for _, m := range a {
+				if m == false {
+					has = true
+				}
+			}
+			return has, len(a)
+		}
+	}
+	return false, 0
 }
 
 // allOf with a literal `false` member
 func hasAllOfFalse(s jv) bool {
-	found := false
-	walkSchemas(s, func(o jobj) {
-		if v, ok := o.get("allOf"); ok {
-			if a, ok := v.([]jv); ok {
-				for _, m := range a {
-					if m == false {
-						found = true
+	return anySchemaObj(s, func(o jobj) bool { h, _ := listHasFalse(o, "allOf"); return h })
+}
+
+// oneOf with a literal `false` member (it keeps the parent's allowed types and has no
+// constraints, so it can end up as the only kept member and then no constraint is emitted)
+func hasOneOfFalse(s jv) bool {
+	return anySchemaObj(s, func(o jobj) bool { h, _ := listHasFalse(o, "oneOf"); return h })
+}
+
+// contains whose subschema uses a validator that reports "incomplete" rather than failure
+// (struct.MinFields, list.UniqueItems) or a reference: list.MatchN validates the members
+// without requiring completeness, so such members count as matches
+func hasContainsWithIncompleteValidator(s jv) bool {
+	return anySchemaObj(s, func(o jobj) bool {
+		v, ok := o.get("contains")
+		if !ok {
+			return false
+		}
+		return hasKw(v, "minProperties") || hasKw(v, "$ref") || hasUniqueItemsTrue(v)
+	})
+}
+
+func valueHasObject(v jv) bool {
+	switch x := v.(type) {
+	case jobj:
+		return true
+	case []jv:
+		for _, e := range x {
+			if valueHasObject(e) {
+				return true
+			}
+		}
+	}
+	return false
+}
+
+// A closed struct (additionalProperties:false, or a const/enum object = close({...})) stops
+// being closed when ANOTHER conjunct contributes an open struct to the same value inside the
+// kind disjunctions.  Second conjuncts arise from: `$ref`; the single-member shortcut of
+// allOf/anyOf/oneOf (the member is inlined); a const/enum object next to other keywords; a
+// property that is also matched by a patternProperties pattern.
+func hasCloser(s jv) bool {
+	return anySchemaObj(s, func(o jobj) bool {
+		if v, ok := o.get("additionalProperties"); ok && v == false {
+			return true
+		}
+		for _, k := range []string{"const", "enum"} {
+			if v, ok := o.get(k); ok && valueHasObject(v) {
+				return true
+			}
+		}
+		return false
+	})
+}
+
+func hasSecondConjunct(s jv) bool {
+	return anySchemaObj(s, func(o jobj) bool {
+		if _, ok := o.get("$ref"); ok {
+			return true
+		}
+		for _, k := range []string{"allOf", "anyOf", "oneOf"} {
+			if v, ok := o.get(k); ok {
+				if a, ok := v.([]jv); ok && len(a) >= 1 {
+					return true
+				}
+			}
+		}
+		obj, other := false, false
+		for _, e := range o {
+			switch e.k {
+			case "const", "enum":
+				obj = obj || valueHasObject(e.v)
+			case "$defs", "$comment", "default", "examples":
+			default:
+				other = true
+			}
+		}
+		if obj && other {
+			return true
+		}
+		if pv, ok := o.get("properties"); ok {
+			if pp, ok := o.get("patternProperties"); ok {
+				props, _ := pv.(jobj)
+				pats, _ := pp.(jobj)
+				for _, p := range props {
+					for _, q := range pats {
+						if c13PatternMatches(q.k, p.k) {
+							return true
+						}
 					}
 				}
 			}
 		}
+		return false
 	})
-	return found
 }
 
-func c13ClassImpl(s jv, inst jv) string {
+// additionalProperties (false or a schema) next to `required` naming a property that is not
+// in `properties`: the importer declares the required field, which exempts it
+func hasAdditionalWithRequired(s jv) bool {
+	return anySchemaObj(s, func(o jobj) bool {
+		ap, ok := o.get("additionalProperties")
+		if !ok || ap == true {
+			return false
+		}
+		rq, ok := o.get("required")
+		if !ok {
+			return false
+		}
+		props := jobj{}
+		if v, ok := o.get("properties"); ok {
+			props, _ = v.(jobj)
+		}
+		if a, ok := rq.([]jv); ok {
+			for _, e := range a {
+				if name, ok := e.(string); ok {
+					if _, in := props.get(name); !in {
+						return true
+					}
+				}
+			}
+		}
+		return false
+	})
+}
+
+// if/then/else where one part is the generator's statically conflicting schema
+// {"enum":[1],"minimum":5} (CUE `1 & >=5` = bottom as a matchIf argument)
+func hasIfWithConflictLiteral(s jv) bool {
+	isConflict := func(v jv) bool {
+		o, ok := v.(jobj)
+		if !ok {
+			return false
+		}
+		_, e := o.get("enum")
+		_, m := o.get("minimum")
+		return e && m && len(o) == 2
+	}
+	return anySchemaObj(s, func(o jobj) bool {
+		if _, ok := o.get("if"); !ok {
+			return false
+		}
+		for _, k := range []string{"if", "then", "else"} {
+			if v, ok := o.get(k); ok && isConflict(v) {
+				return true
+			}
+		}
+		return false
+	})
+}
+
+func c13ClassImpl(s jv, inst jv, flags string) string {
 	switch {
+	case strings.Contains(flags, "matchIf-error-arg") || hasIfWithConflictLiteral(s):
+		return "matchIf-unsatisfiable-argument"
 	case hasAllOfCountBug(s):
 		return "allOf-member-without-constraints"
 	case hasAllOfFalse(s):
 		return "allOf-false-member"
+	case hasOneOfFalse(s):
+		return "oneOf-false-member"
+	case hasContainsWithIncompleteValidator(s):
+		return "contains-incomplete-validator"
 	case hasEffectivePropertyNames(s):
 		return "propertyNames"
+	case hasCloser(s) && hasSecondConjunct(s):
+		return "closedness-lost"
+	case hasAdditionalWithRequired(s):
+		return "additionalProperties-with-required"
 	case typeListHasIntegerAndNumber(s):
 		return "type-integer-and-number"
 	case typeMentions(s, "integer") && hasIntegralFloat(inst):
@@ -152,9 +318,55 @@ func c13ClassImpl(s jv, inst jv) string {
 	return ""
 }
 
-func c13GenClassImpl(s, g jv, inst jv) string {
-	if c := c13ClassImpl(s, inst); c != "" {
+// ---- reverse direction ---------------------------------------------------------------------------
+
+// assertion keywords whose disappearance from the generated schema makes it laxer; const and
+// enum are one family
+var c13LossOrder = []string{"required", "patternProperties", "additionalProperties", "properties", "enum",
+	"contains", "uniqueItems", "items", "minItems", "maxItems", "minProperties", "maxProperties",
+	"multipleOf", "minimum", "maximum", "exclusiveMinimum", "exclusiveMaximum", "minLength", "maxLength",
+	"pattern", "not", "oneOf", "if"}
+
+// kwCounts: how many schema objects carry each assertion keyword (const counts as enum;
+// additionalProperties only when it is not `true`)
+func kwCounts(s jv) map[string]int {
+	cnt := map[string]int{}
+	walkSchemas(s, func(o jobj) {
+		for _, e := range o {
+			k := e.k
+			if k == "const" {
+				k = "enum"
+			}
+			if k == "additionalProperties" && e.v == true {
+				continue
+			}
+			cnt[k]++
+		}
+	})
+	return cnt
+}
+
+func c13GenClassImpl(s, g jv, inst jv, flags string) string {
+	if c := c13ClassImpl(s, inst, flags); c != "" {
 		return "reverse-of:" + c
+	}
+	if hasKw(s, "$defs") || hasKw(s, "$ref") {
+		return "reverse-root-with-definitions"
+	}
+	// additionalProperties: <schema> comes back as additionalProperties: true
+	if anySchemaObj(s, func(o jobj) bool {
+		v, ok := o.get("additionalProperties")
+		_, isObj := v.(jobj)
+		return ok && isObj
+	}) {
+		return "reverse-additionalProperties-schema"
+	}
+	// a keyword that occurs in fewer schema objects of the generated schema than of the source
+	ks, kg := kwCounts(s), kwCounts(g)
+	for _, k := range c13LossOrder {
+		if ks[k] > kg[k] {
+			return "reverse-lost:" + k
+		}
 	}
 	return ""
 }
